@@ -108,6 +108,54 @@ def gen_case(rnd, thorough):
             "create": rnd.choice(["data", "data+shape", "dtype+shape"])}
 
 
+def numpy_spec(c, obs):
+    """the property read with NumPy as the reference (cells are opaque integers): returns (step, what) for the first
+    step whose observation is not what the calls so far determine, else None.  Used to name the failing input when
+    model and implementation disagree."""
+    import numpy as np
+    a = np.array(c["cells"], dtype=object).reshape(c["shape"])
+    for i, op in enumerate(c["ops"]):
+        o = obs[i + 1]
+        refused = bool(o[0])
+        k = op[0]
+        exp = a
+        try:
+            if k == "write_all":
+                exp = np.array(op[1], dtype=object).reshape(a.shape)
+            elif k == "write_region":
+                idx = tuple(it[1] if it[0] == "int" else (slice(it[1], it[2], it[3]) if it[0] == "slice" else Ellipsis) for it in op[1])
+                exp = a.copy()
+                sel = exp[idx]
+                if any(it[0] == "slice" and it[3] is not None and it[3] < 0 for it in op[1]):
+                    raise ValueError("negative step")
+                exp[idx] = np.array(op[2], dtype=object).reshape(np.shape(sel)) if np.ndim(sel) else op[2][0]
+            elif k == "append":
+                blk = np.array(op[2], dtype=object).reshape(op[1])
+                if blk.ndim != a.ndim or any(x != y for j, (x, y) in enumerate(zip(blk.shape, a.shape)) if j != op[3]):
+                    raise ValueError("shape mismatch")
+                exp = np.concatenate([a, blk], axis=op[3])
+            elif k == "resize":
+                exp = np.zeros(op[1], dtype=object)
+                common = tuple(slice(0, min(x, y)) for x, y in zip(a.shape, op[1]))
+                exp[common] = a[common]
+        except Exception:
+            if not refused:
+                return i, "%s with an invalid argument was accepted" % k
+            exp = a
+        else:
+            if refused and not (k == "reopen"):
+                if list(o[1]) != list(a.shape) or list(o[2]) != [int(x) for x in a.ravel()]:
+                    return i, "a refused %s changed the array" % k
+                return i, "a valid %s was refused" % k
+        if not refused and (list(o[1]) != list(exp.shape) or list(o[2]) != [int(x) for x in exp.ravel()]):
+            return i, "after %s the array does not have the shape / values the calls determine" % k
+        if refused and (list(o[1]) != list(a.shape) or list(o[2]) != [int(x) for x in a.ravel()]):
+            return i, "a refused %s changed the array" % k
+        if not refused:
+            a = exp
+    return None
+
+
 def aop(op, dtshape=None):
     if op[0] == "write_all":
         return "(AWriteAll %s)" % zl(op[1])
@@ -139,7 +187,7 @@ def run(ctx):
     n = 3000 if thorough else 260
     cases = [gen_case(rnd, thorough) for _ in range(n)]
     impl = ctx.run_impl("impl_array.py", {"cases": cases}, timeout=3000)
-    terms, inputs, failures = [], [], []
+    terms, inputs, failures, all_obs = [], [], [], []
     for c, r in zip(cases, impl):
         inp = {"dtype": c["dtype"], "shape": c["shape"], "create": c["create"], "compression": c["comp"], "ops": c["ops"]}
         if "create_error" in r:
@@ -161,13 +209,22 @@ def run(ctx):
         arr = "(mkArr %s %s %s)" % (zl(c["shape"]), zl(c["cells"]), cN(DT.index(c["dtype"])))
         terms.append("(%s, %s, %s)" % (arr, clist([aop(o) for o in c["ops"]], "aop"), clist([obs_lit(o) for o in obs[1:]], "aobs")))
         inputs.append(inp)
+        all_obs.append((c, obs))
     disagreements = []
     if core.vo_ok("Pure/ArrayCheck.v"):
         verd, errs = core.eval_verdicts(ctx.workdir, HEADER, "array_case", "check_array", terms, tag="arr", shard_size=60)
         for e in errs:
             st["broken"].append("model evaluation failed: %s" % e)
         for i, code in verd:
-            disagreements.append(inputs[i])
+            try:
+                sf = numpy_spec(*all_obs[i])
+            except Exception:
+                sf = None
+            if sf is not None:
+                step, what = sf
+                failures.append((what, dict(inputs[i], ops=inputs[i]["ops"][:step + 1]), {"step": step, "read_shape": all_obs[i][1][step + 1][1]}))
+            else:
+                disagreements.append(inputs[i])
     else:
         st["broken"].append("model Pure/ArrayCheck.v does not build")
     if failures:
